@@ -161,7 +161,7 @@ def describe_world(w):
     out = []
     for e in w.ents:
         s = snap_entry(e)
-        out.append({"dtype": s["dtype"], "shape": list(s["shape"]), "vals": [repr(v) for v in s["vals"]],
+        out.append({"dtype": s["dtype"], "shape": list(s["shape"]), "vals": rw._tolist(np.asarray(e.obj)),
                     "units": list(s["units"][:4]), "reg": "R" if e.obj.units.registry is w.R else
                     ("D" if e.obj.units.registry is w.D else "other"), "name": s["name"], "cls": s["cls"]})
     return out
@@ -687,6 +687,7 @@ class Sim18:
         self.cells = []  # (cell tuple string, nontrivial)
         self.failed_calls = []
         self.failed_targets = set()
+        self.numpy_tainted = set()
         self.step_no = 0
         self.oracleC = {"checked": 0, "skipped_int": 0, "twin_raised": 0}
 
@@ -723,6 +724,7 @@ class Sim18:
         fault = op.get("fault", "none")
         self.stats["faults"][fault.split("@")[0]] = self.stats["faults"].get(fault.split("@")[0], 0) + 1
         before = snapshot(w)
+        self._before_ents = before["ents"]
         # pre-call copies for the copying twin (oracle C)
         twin = templates().get(t.twin) if t.twin else None
         copies = None
@@ -773,6 +775,30 @@ class Sim18:
                 return {"exc": type(e).__name__}, None, e
         return {"ok": True}, res, None
 
+    def numpy_baseline(self, op, t, fn, before):
+        """What bare NumPy does for the same call on bare ndarray copies of
+        the pre-call operands: (exception class name or None, target numbers
+        changed?).  unyt is not asked for more failure-atomicity or more
+        in-place/copy symmetry than NumPy's own primitives provide."""
+        w = self.w
+        bare = {}
+        for r, i in op["a"].items():
+            b = before["ents"][w.ents.index(w.ent(i))]
+            bare[r] = np.frombuffer(b["bytes"], dtype=b["dtype"]).reshape(b["shape"]).copy()
+        tgt0 = bare[t.target].copy() if t.target in bare else None
+        try:
+            with warnings.catch_warnings():
+                warnings.simplefilter("ignore")
+                with np.errstate(all="ignore"):
+                    fn(bare, op.get("p", {}))
+            exc = None
+        except Exception as e:  # noqa: BLE001 - any refusal by NumPy is the datum
+            exc = type(e).__name__
+        changed = False
+        if tgt0 is not None:
+            changed = not same_numbers(tgt0.ravel().tolist(), bare[t.target].ravel().tolist())
+        return exc, changed
+
     def oracle_a(self, op, t, before, after, tgt_idx, raised, out):
         w = self.w
         name = op["t"]
@@ -789,6 +815,14 @@ class Sim18:
                     bad.append("numbers")
                 if b["units"] != a["units"]:
                     bad.append("unit")
+                if bad == ["numbers"] and t.cat in ("ufunc_out", "func_out", "ifunc", "iop", "ufunc_at"):
+                    bexc, bchanged = self.numpy_baseline(op, t, t.fn, before)
+                    if bexc == out.get("exc") and bchanged:
+                        self.stats["faults"]["numpy_itself_not_failure_atomic"] = \
+                            self.stats["faults"].get("numpy_itself_not_failure_atomic", 0) + 1
+                        bad = []
+                        # NumPy's own partial write: every view of that buffer is excused in B too
+                        self.numpy_tainted.update(j for j, e2 in enumerate(w.ents) if e2.root == w.ents[i].root)
                 if bad:
                     self.violate("A-failed-inplace-changed-target",
                                  {"call": op, "exception": out.get("exc"), "changed": bad,
@@ -840,6 +874,12 @@ class Sim18:
         unyt, ua, uo, ur = _mods()
         out2, res2, exc2 = self.invoke(twin.fn, copies, p, False)
         name = op["t"]
+        if exc2 is not None and t.cat in ("ufunc_out", "func_out", "iop"):
+            # does bare NumPy show the same asymmetry (out= picks another loop)?
+            bexc, _ = self.numpy_baseline(op, t, twin.fn, {"ents": self._before_ents})
+            if bexc is not None:
+                self.oracleC["numpy_asymmetric"] = self.oracleC.get("numpy_asymmetric", 0) + 1
+                return
         if exc2 is not None:
             self.oracleC["twin_raised"] += 1
             self.violate("C-inplace-succeeded-copy-refused", {"call": op, "copy_exception": type(exc2).__name__},
@@ -866,30 +906,21 @@ class Sim18:
                              [t.cat, name, "shape"])
                 return
         bad = None
-        if int_payload:
-            if got.dtype != want.dtype or got.dtype.kind not in "fc":
-                self.oracleC["skipped_int"] += 1
-            else:
+        if got.dtype != want.dtype or got.dtype.kind not in "fc":
+            # out= buffer of another width/kind than the copying result, or an
+            # integer image: the two routes legitimately round differently
+            # (that is C17's subject); counted, not compared
+            self.oracleC["skipped_int"] += 1
+        else:
+            exact = got.tobytes() == want.tobytes() or same_numbers(got.ravel().tolist(), want.ravel().tolist())
+            if not exact:
+                self.oracleC["within_tol"] = self.oracleC.get("within_tol", 0) + 1
                 for x, y in zip(got.ravel().tolist(), want.ravel().tolist()):
-                    if not np.isfinite(x) or not np.isfinite(y):
-                        continue
-                    if not rw.close(x if not isinstance(x, complex) else [x.real, x.imag],
-                                    y if not isinstance(y, complex) else [y.real, y.imag], str(got.dtype)):
+                    cx = [x.real, x.imag] if isinstance(x, complex) else x
+                    cy = [y.real, y.imag] if isinstance(y, complex) else y
+                    if not rw.close(cx, cy, str(got.dtype)):
                         bad = "numbers"
                         break
-        else:
-            if got.dtype == want.dtype:
-                if got.tobytes() != want.tobytes() and not same_numbers(got.ravel().tolist(), want.ravel().tolist()):
-                    bad = "numbers"
-            else:
-                # out= buffer of another float width: compare after casting the copy result
-                with np.errstate(all="ignore"):
-                    w2 = want.astype(got.dtype) if want.dtype.kind in "fciub" and got.dtype.kind in "fc" else want
-                if not same_numbers(got.ravel().tolist(), w2.ravel().tolist()):
-                    if got.dtype.kind in "fc" and want.dtype.kind in "fc" and got.dtype.itemsize < want.dtype.itemsize:
-                        self.oracleC["skipped_int"] += 1
-                    else:
-                        bad = "numbers"
         self.oracleC["checked"] += 1
         ub = None
         if isinstance(res2, unyt.unyt_array):
@@ -981,11 +1012,10 @@ def simulate(chan, spec):
                     diffs.append(f"obj{i}.dtype")
                 if len(m["vals"]) != len(t2["vals"]):
                     diffs.append(f"obj{i}.len")
+                elif i in sim.numpy_tainted:
+                    pass
                 else:
-                    for x, y in zip(m["vals"], t2["vals"]):
-                        fx, fy = eval(x, {"nan": float("nan"), "inf": float("inf")}), eval(y, {"nan": float("nan"), "inf": float("inf")})  # noqa: S307
-                        cx = [fx.real, fx.imag] if isinstance(fx, complex) else fx
-                        cy = [fy.real, fy.imag] if isinstance(fy, complex) else fy
+                    for cx, cy in zip(m["vals"], t2["vals"]):
                         if isinstance(cx, bool) or isinstance(cy, bool):
                             same = bool(cx) == bool(cy)
                         else:
@@ -1008,6 +1038,8 @@ def simulate(chan, spec):
         "cold_calls": chan.cold_calls if chan else 0,
         "extra": {"grid_cells_visited": grid_cells, "oracleC_checked": sim.oracleC["checked"],
                   "oracleC_skipped_integer_payload": sim.oracleC["skipped_int"],
+                  "oracleC_equal_only_within_tolerance": sim.oracleC.get("within_tol", 0),
+                  "oracleC_numpy_itself_asymmetric": sim.oracleC.get("numpy_asymmetric", 0),
                   "oracleB_worlds_compared": 1 if b_info else 0, "calls_raised": len(sim.failed_calls)},
     }
 
